@@ -227,6 +227,28 @@ func (c *compiler) pkgPrefix(key string) string {
 	return c.PackageName + "." + key
 }
 
+// importedGlobal resolves a selector pkg.Name on an imported package (that is not
+// shadowed by a local variable) to the global slot of that package-level name.
+func (c *compiler) importedGlobal(tok *token) (int, bool) {
+	const dotLeft, dotRight = 0, 1
+	if tok.Symbol != "." {
+		return 0, false
+	}
+	left, right := tok.Tokens[dotLeft], tok.Tokens[dotRight]
+	if left.Symbol != "(name)" || c.Locals.Exists(left.Text) {
+		return 0, false
+	}
+	pkg, ok := c.Imports[left.Text]
+	if !ok {
+		return 0, false
+	}
+	key := pkg + "." + right.Text
+	if !c.Globals.Exists(key) {
+		panicf("undefined: %v", key)
+	}
+	return c.Globals.Index(key), true
+}
+
 var infixMap = map[string]code{
 	"||": codeOr,
 	"&&": codeAnd,
@@ -331,6 +353,10 @@ func (c *compiler) compile(tok *token) []instruction {
 			res = append(res, c.compile(arg.Tokens[indexItem])...)
 			res = append(res, c.compile(arg.Tokens[indexKey])...)
 			res = append(res, instruction{Code: codeSet})
+		} else if idx, ok := c.importedGlobal(arg); ok {
+			res = append(res, instruction{Code: codeGlobalGet, A: reg(idx)})
+			res = append(res, todo...)
+			res = append(res, instruction{Code: codeGlobalSet, A: reg(idx)})
 		} else if arg.Symbol == "." {
 			const indexItem, indexKey = 0, 1
 			res = append(res, c.compile(arg.Tokens[indexItem])...)
@@ -467,6 +493,8 @@ func (c *compiler) compile(tok *token) []instruction {
 				res = append(res, c.compile(arg.Tokens[indexItem])...)
 				res = append(res, c.compile(arg.Tokens[indexKey])...)
 				res = append(res, instruction{Code: codeSet})
+			} else if idx, ok := c.importedGlobal(arg); ok {
+				res = append(res, instruction{Code: codeGlobalSet, A: reg(idx)})
 			} else if arg.Symbol == "." {
 				const indexItem, indexKey = 0, 1
 				res = append(res, c.compile(arg.Tokens[indexItem])...)
@@ -504,15 +532,9 @@ func (c *compiler) compile(tok *token) []instruction {
 	case ".":
 		const dotLeft, dotRight = 0, 1
 		left, right := tok.Tokens[dotLeft], tok.Tokens[dotRight]
-		if left.Symbol == "(name)" && !c.Locals.Exists(left.Text) {
-			if pkg, ok := c.Imports[left.Text]; ok {
-				key := pkg + "." + right.Text
-				if !c.Globals.Exists(key) {
-					panicf("undefined: %v", key)
-				}
-				res = append(res, instruction{Code: codeGlobalGet, A: reg(c.Globals.Index(key))})
-				break
-			}
+		if idx, ok := c.importedGlobal(tok); ok {
+			res = append(res, instruction{Code: codeGlobalGet, A: reg(idx)})
+			break
 		}
 		res = append(res, c.compile(left)...)
 		res = append(res, instruction{Code: codeGetAttr, A: reg(c.Globals.Index(right.Text))})
